@@ -213,7 +213,7 @@ def crash_scenario(ctx, seed, quick):
             for h in hits:
                 counts[h] = counts.get(h, 0) + 1
                 seq.append((h, counts[h]))
-            cap = 45 if quick else 400
+            cap = 45 if quick else 150
             if len(seq) > cap:
                 seq = rng.sample(seq, cap)
             for name, n in seq:
@@ -291,8 +291,21 @@ def signal_scenario(ctx, seed):
             st["shell_prefix"] = "exec "
         sc["stmts"].append(st)
     sc["stmts"].append(St("link", ["prog"], ins=[s["outs"][0] for s in sc["stmts"]]))
-    t = e2e.Tree(sc)
     sig = rng.choice((signal.SIGINT, signal.SIGTERM, signal.SIGHUP, signal.SIGKILL, signal.SIGINT))
+    # Ctrl-C in a terminal: the signal goes to the whole foreground process group - ninja and the console-pool command, which
+    # shares ninja's group, get it at the same instant, and ninja learns of the interrupt and of that command's death in one
+    # wake-up (made certain here by stopping ninja while the signal is delivered)
+    group = sig != signal.SIGKILL and rng.random() < 0.3
+    cons = None
+    if group:
+        cons = rng.choice([s for s in sc["stmts"] if s["id"] != "link"])
+        cons["pool"] = "console"
+        cons["early"] = True
+        cons.pop("shell_suffix", None)
+        cons.pop("shell_prefix", None)
+        cons.pop("stubborn", None)
+        cons["vtool_args"] = ["--sleep-after", "1500", "--announce", "run%s.flag" % cons["id"][1:]]
+    t = e2e.Tree(sc)
     rep = {"seed": seed, "signal": int(sig), "manifest": open(t.path("build.ninja")).read()}
     what = "signal scenario %d (%s)" % (seed, sig.name)
     try:
@@ -309,13 +322,24 @@ def signal_scenario(ctx, seed):
         pre = t.snapshot()
         p = t.popen(["-j%d" % rng.choice((1, 2, 4))])
         # wait until at least one command provably runs
-        victim = rng.randrange(n)
+        victim = rng.randrange(n) if cons is None else int(cons["id"][1:])
         t0 = time.time()
         while time.time() - t0 < 30 and not os.path.exists(t.path("run%d.flag" % victim)) and p.poll() is None:
             time.sleep(0.002)
         time.sleep(rng.random() * 0.1)
         try:
-            os.kill(p.pid, sig)
+            if group and p.poll() is None:
+                ctx.count("signal_runs_to_whole_group")
+                os.kill(p.pid, signal.SIGSTOP)
+                os.killpg(p.pid, sig)
+                cpid = next((e["pid"] for e in t.events() if e["e"] == "S" and e["id"] == cons["outs"][0]), None)
+                t1 = time.time()
+                while cpid is not None and pid_alive(cpid) and time.time() - t1 < 10:
+                    time.sleep(0.005)
+                time.sleep(0.05)
+                os.kill(p.pid, signal.SIGCONT)
+            else:
+                os.kill(p.pid, sig)
         except OSError:
             pass
         try:
@@ -498,8 +522,8 @@ def nsim_interrupts(ctx, rng, n):
 def run(ctx):
     quick = ctx.tier == "quick"
     rng = random.Random(ctx.seed * 9973 + 7)
-    nsim_interrupts(ctx, rng, 1500 if quick else 30000)
-    seeds = [rng.randint(1, 10 ** 9) for _ in range(32 if quick else 400)]
+    nsim_interrupts(ctx, rng, 1500 if quick else 15000)
+    seeds = [rng.randint(1, 10 ** 9) for _ in range(32 if quick else 150)]
     res = e2e.parallel(lambda s: safe(ctx, crash_scenario, ctx, s, quick), seeds)
     pts = set()
     for r in res:
@@ -507,12 +531,12 @@ def run(ctx):
             pts |= r["points"]
     ctx.counters["distinct_crash_points_hit"] = len(pts)
     ctx.counters["crash_points_hit"] = sorted(pts)
-    sseeds = [rng.randint(1, 10 ** 9) for _ in range(100 if quick else 3000)]
+    sseeds = [rng.randint(1, 10 ** 9) for _ in range(100 if quick else 1200)]
     e2e.parallel(lambda s: safe(ctx, signal_scenario, ctx, s), sseeds)
     ctx.rule = ("crash family: %d generated scenarios x every (crash point, hit index) reached by the victim build (cap %d per scenario); "
                 "signal family: %d runs with SIGINT/SIGTERM/SIGHUP/SIGKILL sent once a chosen command provably runs; nsim: interrupt at "
                 "wait index 0..4 of %d scenarios; distinct_nontrivial = distinct (scenario, crash point, hit) pairs that crashed + "
-                "distinct interrupted runs" % (len(seeds), 45 if quick else 400, len(sseeds), 1500 if quick else 30000))
+                "distinct interrupted runs" % (len(seeds), 45 if quick else 150, len(sseeds), 1500 if quick else 15000))
 
 
 def safe(ctx, fn, *a):
